@@ -259,6 +259,7 @@ def finish(prop, tier, seed, level, records, errors, walls, t0, *, functions, as
         "open": sum(1 for r in normal if r["verdict"] == "open"),
         "unbounded_obligations": unb,
         "shape_bounded_obligations": nobl - unb,
+        "every_team_size_obligations": sum(1 for r in normal if "/any-team-size/" in r["name"]),
         "by_backend": by_backend,
         "by_function": by_fn,
         "functions_under_contract": sorted(functions),
@@ -305,9 +306,13 @@ def finish(prop, tier, seed, level, records, errors, walls, t0, *, functions, as
         for line in (e["out"] or "").splitlines()[:6]:
             print("#   " + line)
         print(f"VIOLATION property={prop} replay={e['path']}{tail}")
+    note_fams = {}
     for r in notes:
-        print(f"# not attempted: {r['name']}: {r['note'][:200]}")
-    print(f"{prop} [{tier}] obligations={nobl} discharged={ndis} unbounded={unb} canaries={canary_ok}/{len(canaries)} "
+        note_fams.setdefault(family(r["name"]), []).append(r)
+    for fam, rs in note_fams.items():
+        print(f"# not attempted: {rs[0]['name']}: {rs[0]['note'][:200]}" + (f"  (+{len(rs) - 1} more shapes)" if len(rs) > 1 else ""))
+    anysz = cov["every_team_size_obligations"]
+    print(f"{prop} [{tier}] obligations={nobl} discharged={ndis} unbounded={unb}" + (f" every-team-size={anysz}" if anysz else "") + f" canaries={canary_ok}/{len(canaries)} "
           f"violations={len(violations)} known={len(known_hits)} engine_errors={len(engine_errors)} wall={ev['wall_s']}s")
     if engine_errors:
         for e in engine_errors[:5]:
